@@ -1401,54 +1401,31 @@ class NodeStateVars(object):
 			Dict in which keys are old product indices and values are new product indices.
 
 		"""
+		# (Keys are renamed simultaneously, not one at a time, so that a new index that coincides with
+		# another old index -- e.g., a permutation of the node indices -- does not overwrite an entry
+		# that has yet to be renamed.)
+		def remap_keys(d, old_to_new):
+			items = [(old_to_new.get(k, k), v) for k, v in d.items()]
+			d.clear()
+			d.update(items)
+
 		# State variables indexed by product only.
-		for prod in self.node.products:
-			change_dict_key(self.demand_cumul, prod.index, old_to_new_prod_dict[prod.index])
-			change_dict_key(self.inventory_level, prod.index, old_to_new_prod_dict[prod.index])
-			change_dict_key(self.demand_met_from_stock, prod.index, old_to_new_prod_dict[prod.index])
-			change_dict_key(self.demand_met_from_stock_cumul, prod.index, old_to_new_prod_dict[prod.index])
-			change_dict_key(self.fill_rate, prod.index, old_to_new_prod_dict[prod.index])
-			old_rm_indices = list(self.raw_material_inventory.keys())
-			for rm_index in old_rm_indices:
-				change_dict_key(self.raw_material_inventory, rm_index, old_to_new_prod_dict[rm_index])
-			change_dict_key(self.order_quantity_fg, prod.index, old_to_new_prod_dict[prod.index])
-			change_dict_key(self.pending_finished_goods, prod.index, old_to_new_prod_dict[prod.index])
+		for var in (self.demand_cumul, self.inventory_level, self.demand_met_from_stock,
+					self.demand_met_from_stock_cumul, self.fill_rate, self.raw_material_inventory,
+					self.order_quantity_fg, self.pending_finished_goods):
+			remap_keys(var, old_to_new_prod_dict)
 
-		# State variables indexed by predecessor.
-		for p in self.node.predecessors(include_external=True):
-			p_index = p.index if p is not None else None
-			rm_indices = p.product_indices if p is not None else [self.node._external_supplier_dummy_product.index]
-			# Change rm index (inner level of nested dict).
-			for rm_index in rm_indices:
-				change_dict_key(self.inbound_shipment_pipeline[p_index], rm_index, old_to_new_prod_dict[rm_index])
-				change_dict_key(self.inbound_shipment[p_index], rm_index, old_to_new_prod_dict[rm_index])
-				change_dict_key(self.on_order_by_predecessor[p_index], rm_index, old_to_new_prod_dict[rm_index])
-				change_dict_key(self.order_quantity[p_index], rm_index, old_to_new_prod_dict[rm_index])
-				change_dict_key(self.inbound_disrupted_items[p_index], rm_index, old_to_new_prod_dict[rm_index])
-			# Change predecessor index (outer level of nested dict).
-			if p is not None:
-				# We don't need to change the node index for external supplier (only the rm index).
-				change_dict_key(self.inbound_shipment_pipeline, p_index, old_to_new_dict[p_index])
-				change_dict_key(self.inbound_shipment, p_index, old_to_new_dict[p_index])
-				change_dict_key(self.on_order_by_predecessor, p_index, old_to_new_dict[p_index])
-				change_dict_key(self.order_quantity, p_index, old_to_new_dict[p_index])
-				change_dict_key(self.inbound_disrupted_items, p_index, old_to_new_dict[p_index])
-
-		# State variables indexed by successor.
-		for s in self.node.successors(include_external=False):
-			# Change prod index (inner level of nested dict).
-			for prod_index in self.node.product_indices:
-				change_dict_key(self.inbound_order_pipeline[s.index], prod_index, old_to_new_prod_dict[prod_index])
-				change_dict_key(self.inbound_order[s.index], prod_index, old_to_new_prod_dict[prod_index])
-				change_dict_key(self.outbound_shipment[s.index], prod_index, old_to_new_prod_dict[prod_index])
-				change_dict_key(self.backorders_by_successor[s.index], prod_index, old_to_new_prod_dict[prod_index])
-				change_dict_key(self.outbound_disrupted_items[s.index], prod_index, old_to_new_prod_dict[prod_index])
-			# Change successor index (outer level of nested dict).
-			change_dict_key(self.inbound_order_pipeline, s.index, old_to_new_dict[s.index])
-			change_dict_key(self.inbound_order, s.index, old_to_new_dict[s.index])
-			change_dict_key(self.outbound_shipment, s.index, old_to_new_dict[s.index])
-			change_dict_key(self.backorders_by_successor, s.index, old_to_new_dict[s.index])
-			change_dict_key(self.outbound_disrupted_items, s.index, old_to_new_dict[s.index])
+		# State variables indexed by predecessor, then raw material, and by successor, then product.
+		# (The external supplier and customer keep the key None; their product keys change like the others.)
+		for var in (self.inbound_shipment_pipeline, self.inbound_shipment, self.on_order_by_predecessor,
+					self.order_quantity, self.inbound_disrupted_items,
+					self.inbound_order_pipeline, self.inbound_order, self.outbound_shipment,
+					self.backorders_by_successor, self.outbound_disrupted_items):
+			# Change product index (inner level of nested dict).
+			for inner in var.values():
+				remap_keys(inner, old_to_new_prod_dict)
+			# Change node index (outer level of nested dict).
+			remap_keys(var, old_to_new_dict)
 
 	def deep_equal_to(self, other, rel_tol=1e-8):
 		"""Check whether object "deeply equals" ``other``, i.e., if all attributes are
